@@ -108,7 +108,10 @@ def corpus_pp(rng):
             lines.append("_w = %s(%s, %s);" % (rng.choice(macros), rng.choice(macros), rng.choice(macros)))
         elif r < 0.85:
             lines.append("_y = __EVAL(1 + 2) + __LINE__; _f = __FILE__;")
-        elif r < 0.9:
+        elif r < 0.88:
+            # an include of a file that does not exist: well-formed, answered with a diagnostic; its cuts and token damage are what matters
+            lines.append('#include "%s"' % rng.choice(["nofile.hpp", "sub\\nofile.hpp", "../nofile.hpp"]))
+        elif r < 0.92:
             lines.append('_s = "text with %s inside // not a comment";' % rng.choice(macros))
         else:
             lines.append("// comment %s\n/* block %s */ _z = 3;" % (rng.choice(macros), rng.choice(macros)))
@@ -185,6 +188,9 @@ def special_inputs(rng):
            ("macro:callable-name-as-argument", "#define G(x) x\n#define F(a) a\nF(G)"),
            ("macro:callable-name-as-last-argument", "#define G(x) x\n#define F(a,b) a b\n_v = F(1,G);"),
            ("macro:object-name-as-argument", "#define N 3\n#define F(a) a\nF(N) F( N ) F(N,N)"), ("comment:eof-line", "1 // x"), ("comment:eof-block", "1 /* x"),
+           ("include:no-path", "#include\n_a = 1;"), ("include:blank-at-eof", "_a = 1;\n#include "), ("include:empty-path", '#include ""\n_a = 1;'),
+           ("include:unterminated", '#include "abc'), ("include:angle", "#include <abc>\n_a = 1;"), ("include:comment-only", "#include // nothing\n_a = 1;"),
+           ("directive:bare-hash", "#"), ("directive:unknown", "#foo bar\n_a = 1;"), ("directive:else-alone", "#else\n_a = 1;\n#endif"),
            ("line:eof", "#line"), ("line:garbage", "#line abc \"f\"\n1"), ("string:eof", '"abc'), ("string:eof-single", "'abc"),
            ("hex:eof", "0x"), ("hex:dollar-eof", "$"), ("number:forms", "1e 1e+ .5. 1..2"),
            ("config:nest", "class A {" * d + "};" * d), ("config:array-nest", "a[] = " + "{" * d + "1" + "}" * d + ";"),
